@@ -46,7 +46,12 @@ ACCESSORS = {
     "pop_int": "(array_pop xs) array<int>", "pop_float": "(array_pop xs) array<float>", "pop_string": "(array_pop xs) array<string>",
     "len_int": "(array_length xs)", "remove_int": "(array_remove_at xs i)",
 }
+STRING_OPS = {"streq": "(== a b) on string", "strne": "(!= a b) on string"}
+FLOAT_OPS = {"addf": "(+ a b)", "subf": "(- a b)", "mulf": "(* a b)", "divf": "(/ a b)", "eqf": "(== a b)", "nef": "(!= a b)",
+             "ltf": "(< a b)", "lef": "(<= a b)", "gtf": "(> a b)", "gef": "(>= a b)"}      # on float (C double)
 CATALOGUE = dict(OPERATORS, **ACCESSORS)
+CATALOGUE.update(STRING_OPS)
+CATALOGUE.update(FLOAT_OPS)
 
 C_KEYWORDS = {"if", "while", "for", "switch", "return", "sizeof", "do", "else", "case", "typeof", "__typeof__", "defined"}
 
